@@ -162,7 +162,7 @@ class Parser:
                 d += 1
             elif tk.v in (">", ")", "]"):
                 d -= 1
-            out.append(tk.v)
+            out.append(tk.v + (" " if tk.k == "life" else ""))
             self.next()
 
     # -- patterns
@@ -192,7 +192,7 @@ class Parser:
                 return ("plit", self.next().v)
             if tk.v == "mut":
                 self.next()
-                return ("pid", self.ident())
+                return ("pid", self.ident(), True)
             segs = [self.ident()]
             while self.at("::"):
                 self.next()
@@ -530,13 +530,17 @@ def scan_items(text, fname):
                     p.next()
                     if p.peek().k == "life":
                         p.next()
+                pmut = False
                 if p.at("mut"):
                     p.next()
+                    pmut = True
                 if p.at("self"):
                     p.next()
                     params.append(("self", "Self"))
                 else:
                     pat = p.pattern()
+                    if pmut and pat[0] == "pid":
+                        pat = ("pid", pat[1], True)
                     p.expect(":")
                     ty = "".join(p.skip_type([",", ")"]))
                     params.append((pat, ty))
@@ -547,8 +551,9 @@ def scan_items(text, fname):
             if p.at("->"):
                 p.next()
                 ret = "".join(p.skip_type(["{", ";"]) if not _has_where(p) else _skip_to_where(p))
+            where = ""
             if p.at("where"):
-                p.skip_type(["{", ";"])
+                where = " ".join(p.skip_type(["{", ";"]))
             if p.at(";"):
                 i = p.i + 1
                 continue
@@ -565,6 +570,7 @@ def scan_items(text, fname):
                     d -= 1
             span = (toks[i].pos, toks[p.i - 1].pos + 1)
             items.append(FnItem(name, ctx, params, ret, (toks, b0), span, fname))
+            items[-1].where = where
             i = p.i
             hdr_start = i
             continue
@@ -1162,6 +1168,725 @@ def gen_bi(src_dir):
             "  Tie theorems: SLV/Gen/BiTie.lean.\n-/\n"
             "import SLV.Model.Bi\nnamespace SLV.Gen\nopen Scalar\n\n") % (fname, sha("\n".join(spans)))
     return head + "\n".join(defs) + "\nend SLV.Gen\n"
+
+
+# ------------------------------------------------------------------------------------------------
+# 6. back end for src/mul.rs  (multinomial opinions: tables, iterator chains, loops)
+# ------------------------------------------------------------------------------------------------
+# value kinds:  S scalar | B bool | ("V", dim, elem) vector (a table is ("V", d, S)) | ("Sx", d) simplex |
+#               ("Op", d) opinion (flat b,u,a) | ("I", d) index | ("Fuse",) | ("Opt", t)
+S, B, FUSE = ("S",), ("B",), ("Fuse",)
+NS = "SLV.Gen.Mul."
+
+
+def tab(d):
+    return ("V", d, S)
+
+
+def lean_type(t):
+    if t == S:
+        return "α"
+    if t == B:
+        return "Bool"
+    if t == FUSE:
+        return "FuseOp"
+    if t[0] == "V":
+        return "Tab α %s" % t[1] if t[2] == S else "Vector (%s) %s" % (lean_type(t[2]), t[1])
+    if t[0] == "Sx":
+        return "Simplex α %s" % t[1]
+    if t[0] == "Op":
+        return "Opinion α %s" % t[1]
+    if t[0] == "Opt":
+        return "Option (%s)" % lean_type(t[1])
+    raise Unsupported("internal: type %r" % (t,))
+
+
+INDEX_DIM = {"Idx": "n", "X": "n", "Y": "m"}
+
+
+class Scope:
+    """immutable-style scope: rust name -> (lean text, kind)"""
+
+    def __init__(self, d=None, mut=None):
+        self.d = dict(d or {})
+        self.mut = set(mut or ())
+
+    def bind(self, n, text, ty, mutable=False):
+        s = Scope(self.d, self.mut)
+        s.d[n] = (text, ty)
+        if mutable:
+            s.mut.add(n)
+        else:
+            s.mut.discard(n)
+        return s
+
+    def __contains__(self, n):
+        return n in self.d
+
+    def __getitem__(self, n):
+        return self.d[n]
+
+
+class MulEmit(Emit):
+    def __init__(self, item, spec):
+        Emit.__init__(self, item)
+        self.spec = spec
+        self.dims = self.type_dims()
+        self.used_dims = set()
+
+    # -- generic parameters -> dimensions ---------------------------------------------------
+    def type_dims(self):
+        text = self.item.ctx + " , " + getattr(self.item, "where", "")
+        dims = {}
+        for m in re.finditer(r"(\w+) : [^:]*?\b(?:Container|Index|IndexMut|Indexes|FromFn|ContainerMap) < (\w+)", text):
+            p, ix = m.group(1), m.group(2)
+            if ix in INDEX_DIM and p not in dims:
+                dims[p] = INDEX_DIM[ix]
+        dims.update(self.spec.get("dims", {}))
+        return dims
+
+    def rust_type(self, ty):
+        """kind of a parameter from its Rust type text (spaces already removed)"""
+        t = re.sub(r"^&('\w+ )?(mut)?", "", ty)
+        if t == "V":
+            return S
+        if t == "FuseOp":
+            return FUSE
+        if t in self.dims:
+            if t in self.spec.get("cond", ()):
+                return ("V", self.dims[t], ("Sx", self.spec["cond"][t]))
+            return tab(self.dims[t])
+        m = re.match(r"Simplex<(\w+),V>$", t)
+        if m and m.group(1) in self.dims:
+            return ("Sx", self.dims[m.group(1)])
+        m = re.match(r"(?:OpinionRef<'\w+ ,|Opinion<)(\w+),V>$", t)
+        if m and m.group(1) in self.dims:
+            return ("Op", self.dims[m.group(1)])
+        self.fail("parameter type `%s`" % ty)
+
+    def self_type(self):
+        m = re.search(r"impl (?:< [^|]*? > )?(?:[\w:]+ (?:< .*? > )?for )?(&? ?(?:'\w+ )?\w+)(?: < ([^|]*?) >)?(?: where|$)",
+                      self.item.ctx.split(" | ")[-1])
+        if "self" in self.spec:
+            return self.spec["self"]
+        if not m:
+            self.fail("impl header `%s`" % self.item.ctx)
+        head = m.group(1).split()[-1]
+        args = [a.strip() for a in (m.group(2) or "").split(",")]
+        args = [a for a in args if a and not a.startswith("'")]
+        if head == "Simplex" and args and args[0] in self.dims:
+            return ("Sx", self.dims[args[0]])
+        if head in ("OpinionRef", "Opinion") and args and args[0] in self.dims:
+            return ("Op", self.dims[args[0]])
+        if head in self.dims and head in self.spec.get("cond", ()):
+            return ("V", self.dims[head], ("Sx", self.spec["cond"][head]))
+        self.fail("impl header `%s`" % self.item.ctx)
+
+    # -- expressions ---------------------------------------------------------------------
+    def ex(self, e, sc):
+        return self.ex3(e, sc)[:2]
+
+    def dim(self, d):
+        self.used_dims.add(d)
+        return d
+
+    def ex3(self, e, sc):
+        k = e[0]
+        if k == "paren":
+            return self.ex3(e[1], sc)
+        if k == "un":
+            if e[1] in ("*", "&"):
+                return self.ex3(e[2], sc)
+            if e[1] == "!":
+                t = self.ex3(e[2], sc)
+                return ("!" + paren(t[:2], P_ATOM), P_APP, B)
+            self.fail("unary `%s` (no counterpart in Scalar)" % e[1])
+        if k == "bin":
+            op = e[1]
+            l, r = self.ex3(e[2], sc), self.ex3(e[3], sc)
+            if op in ("+", "-", "*", "/"):
+                if l[2] != S or r[2] != S:
+                    self.fail("arithmetic on non-scalars `%s`" % describe(e))
+                p = P_ADD if op in "+-" else P_MUL
+                return (paren(l[:2], p) + " " + op + " " + paren(r[:2], p + 1), p, S)
+            if op in self.CMP:
+                return app(self.CMP[op], l[:2], r[:2]) + (B,)
+            if op in ("&&", "||"):
+                p = P_AND if op == "&&" else P_OR
+                return (paren(l[:2], p) + " " + op + " " + paren(r[:2], p + 1), p, B)
+            self.fail("binary operator `%s`" % op)
+        if k == "path" and len(e[1]) == 1:
+            n = e[1][0]
+            if n in sc:
+                return (sc[n][0], P_ATOM, sc[n][1])
+            if n == "None":
+                return ("none", P_ATOM, ("Opt", None))
+            self.fail("unbound name `%s`" % n)
+        if k == "if":
+            t = self.ifx(e, sc)
+            return t + (self.block_type(e[2], sc),)
+        if k == "block":
+            t = self.seq(e[1], 0, e[2], sc, set())
+            return t + (self.block_type(e, sc),)
+        if k == "macro" and e[1] == "ulps_eq" and len(e[2]) == 2:
+            return Emit.ex(self, e, sc) + (B,)
+        if k == "index":
+            v, i = self.ex3(e[1], sc), self.ex3(e[2], sc)
+            if v[2][0] != "V" or i[2] != ("I", v[2][1]):
+                self.fail("indexing `%s` (container/index kinds %r, %r)" % (describe(e), v[2], i[2]))
+            return (paren(v[:2], P_ATOM) + "[" + i[0] + "]", P_ATOM, v[2][2])
+        if k == "field":
+            r = self.ex3(e[1], sc)
+            return self.member(e, r, e[2], None, sc)
+        if k == "mcall":
+            it = self.iterator(e, sc)
+            if it is not None:
+                self.fail("iterator used as a value `%s`" % describe(e))
+            fin = self.iter_final(e, sc)
+            if fin is not None:
+                return fin
+            r = self.ex3(e[1], sc)
+            return self.member(e, r, e[2], e[3], sc)
+        if k == "call" and e[1][0] == "path":
+            return self.call("::".join(e[1][1]), e[2], e, sc)
+        if k == "match":
+            return self.match_op(e, sc)
+        if k == "struct":
+            fs = [f for f, _ in e[2]]
+            if e[1] in (["Simplex"], ["Self"]) and fs == ["belief", "uncertainty"]:
+                b, u = self.ex3(e[2][0][1], sc), self.ex3(e[2][1][1], sc)
+                if b[2][0] == "V" and b[2][2] == S and u[2] == S:
+                    return app("Simplex.mk", b[:2], u[:2]) + (("Sx", b[2][1]),)
+        self.fail("expression form `%s`" % describe(e))
+
+    def block_type(self, b, sc):
+        """kind of the value of a block (names bound inside are typed on the way)"""
+        if b[0] == "if":
+            return self.block_type(b[2], sc)
+        if b[0] != "block":
+            return self.ex3(b, sc)[2]
+        for st in b[1]:
+            if st[0] == "let" and st[2] is not None and st[1][0] == "pid":
+                sc = sc.bind(st[1][1], lname(st[1][1]), self.ex3(st[2], sc)[2])
+        if b[2] is None:
+            self.fail("block without a value")
+        return self.ex3(b[2], sc)[2]
+
+    # fields and methods by receiver kind
+    def member(self, e, r, name, args, sc):
+        rt, rp, ty = r
+        at = paren((rt, rp), P_ATOM)
+        call = args is not None
+        a = [self.ex3(x, sc) for x in (args or [])]
+        if name in ("clone", "borrow", "as_ref") and call and not a:
+            return r
+        if ty[0] == "Sx":
+            d = ty[1]
+            if (name == "b" and call and not a) or (name == "belief" and not call):
+                return (at + ".b", P_ATOM, tab(d))
+            if (name == "u" and call and not a) or (name == "uncertainty" and not call):
+                return (at + ".u", P_ATOM, S)
+            if call and not a and name in ("is_vacuous", "is_dogmatic"):
+                return app(NS + "Simplex_" + name, r[:2]) + (B,)
+            if call and len(a) == 1 and name == "projection" and a[0][2] == tab(d):
+                return app(NS + "Simplex_projection", r[:2], a[0][:2]) + (tab(d),)
+            if call and len(a) == 1 and name == "max_uncertainty" and a[0][2] == tab(d):
+                return app(NS + "max_uncertainty", r[:2], a[0][:2]) + (S,)
+            if call and len(a) == 1 and name == "uncertainty_maximized" and a[0][2] == tab(d):
+                return app(NS + "uncertainty_maximized", r[:2], a[0][:2]) + (ty,)
+            if call and len(a) == 1 and name == "discount" and a[0][2] == S:
+                return app(NS + "Simplex_discount", r[:2], a[0][:2]) + (ty,)
+        if ty[0] == "Op":
+            d = ty[1]
+            if name == "b" and call and not a:
+                return (at + ".b", P_ATOM, tab(d))
+            if name == "u" and call and not a:
+                return (at + ".u", P_ATOM, S)
+            if name == "base_rate" and not call:
+                return (at + ".a", P_ATOM, tab(d))
+            if name == "simplex" and not call:
+                return app("Opinion.simplex", r[:2]) + (("Sx", d),)
+            if call and not a and name in ("is_vacuous", "is_dogmatic"):
+                return app(NS + "OpinionRef_" + name, r[:2]) + (B,)
+            if call and not a and name == "projection":
+                return app(NS + "OpinionRef_projection", r[:2]) + (tab(d),)
+        if ty == S and call and len(a) == 1 and name in ("min", "max") and a[0][2] == S:
+            return app("Scalar." + name, r[:2], a[0][:2]) + (S,)
+        self.fail("member `%s` on a value of kind %r" % (describe(e), ty))
+
+    def scalar_const(self, f):
+        return {"V::one": "(Scalar.one : α)", "V::zero": "(Scalar.zero : α)"}.get(f)
+
+    def call(self, f, args, e, sc):
+        if self.scalar_const(f) and not args:
+            return (self.scalar_const(f), P_ATOM, S)
+        if f in ("is_zero", "is_one", "approx_ext::is_zero", "approx_ext::is_one") and len(args) == 1:
+            a = self.ex3(args[0], sc)
+            if a[2] == S:
+                return app("Scalar.isZero" if f.endswith("zero") else "Scalar.isOne", a[:2]) + (B,)
+        segs = f.split("::")
+        if len(segs) == 2 and segs[0] in self.dims and segs[1] in ("from_fn", "map") and len(args) == 1 \
+                and args[0][0] == "closure":
+            return self.of_fn(self.dims[segs[0]], args[0], sc)
+        if len(segs) == 2 and segs[0] in self.dims and segs[1] == "zeros" and not args:
+            d = self.dim(self.dims[segs[0]])
+            return ("Vector.replicate %s (Scalar.zero : α)" % d, P_APP, tab(d))
+        if len(segs) == 2 and segs[0] in self.dims and segs[1] == "from_iter" and len(args) == 1:
+            it = self.iterator(args[0], sc)
+            if it and it["kind"] == "vals" and it["map"] and not it["filter"]:
+                var, body = it["map"]
+                return ("Vector.map (fun %s => %s) %s" % (var, body[0], it["src"]), P_APP, ("V", it["dim"], body[2]))
+        if f in ("OpinionRef::from", "Opinion::from") and len(args) == 1 and args[0][0] == "tuple" and len(args[0][1]) == 2:
+            s_, a_ = self.ex3(args[0][1][0], sc), self.ex3(args[0][1][1], sc)
+            if s_[2][0] == "Sx" and a_[2] == tab(s_[2][1]):
+                return app("Opinion.mk'", s_[:2], a_[:2]) + (("Op", s_[2][1]),)
+        a = [self.ex3(x, sc) for x in args]
+        if f == "Simplex::normalized" and len(a) == 2 and a[0][2][0] == "V" and a[1][2] == S:
+            return app(NS + "Simplex_normalized", a[0][:2], a[1][:2]) + (("Sx", a[0][2][1]),)
+        if f in ("Simplex::new_unchecked", "Self::new_unchecked") and len(a) == 2 and a[0][2][0] == "V" \
+                and a[0][2][2] == S and a[1][2] == S and (f[0] == "S" and (f != "Self::new_unchecked" or self.selfkind == "Sx")):
+            return app("Simplex.mk", a[0][:2], a[1][:2]) + (("Sx", a[0][2][1]),)
+        if f in ("Simplex::vacuous", "Self::Output::vacuous", "Self::vacuous") and not a:
+            rt = self.spec.get("vacuous_dim") or self.ret_dim()
+            return ("(%sSimplex_vacuous : Simplex α %s)" % (NS, rt), P_ATOM, ("Sx", rt))
+        if f == "Simplex::projection" and len(a) == 2 and a[0][2][0] == "Sx":
+            return app(NS + "Simplex_projection", a[0][:2], a[1][:2]) + (tab(a[0][2][1]),)
+        if f == "projections" and len(a) == 2 and a[0][2][0] == "V" and a[0][2][2][0] == "Sx":
+            d, dm = a[0][2][1], a[0][2][2][1]
+            return app(NS + "projections", a[0][:2], a[1][:2]) + (("V", d, tab(dm)),)
+        if f == "Some" and len(a) == 1:
+            return app("some", a[0][:2]) + (("Opt", a[0][2]),)
+        if f == "std::ptr::eq" and len(args) == 2 and "ptr_eq" in self.spec:
+            want = self.spec["ptr_eq"]
+            got = [describe(x) for x in args]
+            if got != want[0]:
+                self.fail("std::ptr::eq on %s (modelled only for %s)" % (got, want[0]))
+            return (want[1], P_ATOM, B)
+        self.fail("call `%s`" % describe(e))
+
+    def ret_dim(self):
+        m = re.search(r"(?:Simplex|Tab|Opinion) α (\w+)", self.spec["rty"])
+        if not m:
+            self.fail("dimension of the result")
+        return m.group(1)
+
+    # closures over an index: T::from_fn(|i| ..), T::map(|i| ..)
+    def idx_binder(self, pat, d):
+        if pat[0] == "pref":
+            pat = pat[1]
+        if pat[0] == "pwild":
+            return "_", None
+        if pat[0] == "pid":
+            return lname(pat[1]), pat[1]
+        self.fail("closure parameter pattern")
+
+    def of_fn(self, d, clo, sc):
+        self.dim(d)
+        if len(clo[1]) != 1:
+            self.fail("closure arity")
+        var, rn = self.idx_binder(clo[1][0], d)
+        sc2 = sc.bind(rn, var, ("I", d)) if rn else sc
+        body = self.closure_body(clo[2], sc2)
+        bt = body[0]
+        t = "Vector.ofFn fun %s : Fin %s =>" % (var, d)
+        t = t + " " + bt if "\n" not in bt and len(bt) < 90 else t + "\n" + ind(bt)
+        return (t, P_LOW, ("V", d, body[2]))
+
+    def closure_body(self, b, sc):
+        """value of a closure body; a body that also updates an outer accumulator is handled in `let`"""
+        t = self.ex3(b, sc)
+        if t[0].startswith(("let ", "match ", "if ")) or t[1] == P_LOW:
+            if t[0].startswith("let ") or t[0].startswith("match "):
+                return ("(" + t[0] + ")", P_ATOM, t[2])
+        return t
+
+    # -- iterator chains ---------------------------------------------------------------------
+    def iterator(self, e, sc):
+        """description of an iterator-valued expression, or None"""
+        if e[0] == "call" and e[1][0] == "path" and len(e[1][1]) == 2 and e[1][1][1] == "indexes" \
+                and e[1][1][0] in self.dims and not e[2]:
+            return {"kind": "idx", "dim": self.dim(self.dims[e[1][1][0]]), "src": None, "filter": None, "map": None}
+        if e[0] != "mcall":
+            return None
+        recv, name, args = e[1], e[2], e[3]
+        if name in ("iter_with", "into_iter") and not args:
+            r = self.ex3(recv, sc)
+            if r[2][0] == "V":
+                return {"kind": "pairs" if name == "iter_with" else "vals", "dim": self.dim(r[2][1]),
+                        "src": paren(r[:2], P_ATOM), "elem": r[2][2], "filter": None, "map": None}
+            return None
+        if name in ("map", "filter") and len(args) == 1 and args[0][0] == "closure":
+            it = self.iterator(recv, sc)
+            if it is None:
+                return None
+            it = dict(it)
+            if it["map"] is not None:
+                self.fail("`.%s` after `.map` in an iterator chain" % name)
+            clo = args[0]
+            if len(clo[1]) != 1:
+                self.fail("closure arity")
+            pat = clo[1][0]
+            d = it["dim"]
+            if it["kind"] == "idx":
+                var, rn = self.idx_binder(pat, d)
+                sc2 = sc.bind(rn, var, ("I", d)) if rn else sc
+            elif it["kind"] == "pairs":
+                if pat[0] != "ptuple" or len(pat[1]) != 2:
+                    self.fail("closure parameter of an `iter_with` chain")
+                var, rn = self.idx_binder(pat[1][0], d)
+                sc2 = sc.bind(rn, var, ("I", d)) if rn else sc
+                vp = pat[1][1][1] if pat[1][1][0] == "pref" else pat[1][1]
+                if vp[0] == "pid":
+                    if rn is None:
+                        self.fail("`iter_with` closure using the value without the index")
+                    sc2 = sc2.bind(vp[1], "%s[%s]" % (it["src"], var), it["elem"])
+                elif vp[0] != "pwild":
+                    self.fail("closure parameter of an `iter_with` chain")
+            else:
+                vp = pat[1] if pat[0] == "pref" else pat
+                if vp[0] != "pid":
+                    self.fail("closure parameter of an `into_iter` chain")
+                var = lname(vp[1])
+                sc2 = sc.bind(vp[1], var, it["elem"])
+            body = self.closure_body(clo[2], sc2)
+            if name == "filter":
+                if it["kind"] != "idx" or it["filter"] is not None:
+                    self.fail("`.filter` in this position")
+                if body[2] != B:
+                    self.fail("non-boolean filter")
+                it["filter"] = (var, body)
+            else:
+                it["map"] = (var, body)
+            return it
+        return None
+
+    def lam(self, it, what):
+        var, body = it[what]
+        t = "fun %s : Fin %s => %s" % (var, it["dim"], body[0])
+        return t
+
+    def iter_final(self, e, sc):
+        recv, name, args = e[1], e[2], e[3]
+        if name == "sum" and not args:
+            it = self.iterator(recv, sc)
+            if it is None:
+                return None
+            if it["map"] is None or it["filter"] is not None or it["kind"] == "vals" or it["map"][1][2] != S:
+                self.fail("`.sum()` over this iterator shape")
+            return ("Tab.sumIter (Vector.ofFn %s)" % self.lam(it, "map"), P_APP, S)
+        if name == "all" and len(args) == 1 and args[0][0] == "closure":
+            it = self.iterator(recv, sc)
+            if it is None:
+                return None
+            if it["kind"] != "idx" or it["map"] or it["filter"]:
+                self.fail("`.all()` over this iterator shape")
+            it2 = self.iterator(("mcall", recv, "filter", args), sc)      # same binder discipline as filter
+            return ("(List.finRange %s).all %s" % (it["dim"], self.lam(it2, "filter")), P_APP, B)
+        if name in ("unwrap", "unwrap_or") and recv[0] == "mcall" and recv[2] == "reduce" and len(recv[3]) == 1:
+            it = self.iterator(recv[1], sc)
+            if it is None:
+                return None
+            f = recv[3][0]
+            if f[0] != "path" or f[1] not in (["<V>", "min"], ["<V>", "max"], ["V", "min"], ["V", "max"]):
+                self.fail("reduction function `%s`" % describe(f))
+            which = f[1][1]
+            if it["map"] is None or it["kind"] != "idx" or it["map"][1][2] != S:
+                self.fail("`.reduce()` over this iterator shape")
+            if name == "unwrap" and not args and it["filter"] is None:
+                return ("Tab.reduce%s (Vector.ofFn %s)" % (which.capitalize(), self.lam(it, "map")), P_APP, S)
+            if name == "unwrap_or" and len(args) == 1 and it["filter"] is not None:
+                dflt = self.ex3(args[0], sc)
+                t = "Tab.reduceL Scalar.%s (((List.finRange %s).filter %s).map %s) %s" % (
+                    which, it["dim"], self.lam(it, "filter"), self.lam(it, "map"), paren(dflt[:2], P_ATOM))
+                return (t, P_APP, S)
+            self.fail("`.reduce(..).%s(..)` over this iterator shape" % name)
+        return None
+
+    # -- `match op { A | B if g => e, .. }` : a flat guard ladder over FuseOp ---------------------------
+    FUSEOPS = {"ACm": ".acm", "ECm": ".ecm", "Avg": ".avg", "Wgh": ".wgh"}
+
+    def match_op(self, e, sc):
+        s = self.ex3(e[1], sc)
+        if s[2] != FUSE:
+            self.fail("`match` on a value of kind %r" % (s[2],))
+        groups = []            # [(patset, [(guard, body)])] ; arms with the same pattern set must be consecutive
+        for pats, guard, body in e[2]:
+            ps = []
+            for p in pats:
+                if p[0] != "ppath" or len(p[1]) != 2 or p[1][0] != "FuseOp" or p[1][1] not in self.FUSEOPS:
+                    self.fail("match pattern (only FuseOp::X alternatives)")
+                ps.append(self.FUSEOPS[p[1][1]])
+            if groups and groups[-1][0] == ps:
+                if groups[-1][1][-1][0] is None:
+                    self.fail("unreachable match arm after an unguarded one")
+                groups[-1][1].append((guard, body))
+            else:
+                for g in groups:
+                    if set(g[0]) & set(ps):
+                        self.fail("overlapping, non-consecutive match arms (cannot be grouped faithfully)")
+                groups.append((ps, [(guard, body)]))
+        seen = set()
+        arms, ty = [], None
+        for ps, gb in groups:
+            if gb[-1][0] is not None:
+                self.fail("guard ladder for %s not closed by an unguarded arm" % "|".join(ps))
+            seen |= set(ps)
+            # within a group the arms are tried in order: if g1 then e1 else if g2 then e2 ... else e_last
+            t = None
+            for guard, body in reversed(gb):
+                b = self.ex3(body, sc)
+                ty = ty or b[2]
+                bt = "(" + b[0] + ")" if b[0].startswith(("let ", "match ")) else b[0]
+                if guard is None:
+                    t = bt
+                else:
+                    g = self.ex3(guard, sc)
+                    chained = t.startswith("if ")
+                    t = "if " + g[0] + " then\n" + ind(bt) + "\nelse" + (" " + t if chained else "\n" + ind(t))
+            arms.append("| " + " | ".join(ps) + " =>\n" + ind(t, 4))
+        if seen != set(self.FUSEOPS.values()):
+            self.fail("non-exhaustive match over FuseOp")
+        return ("match " + s[0] + " with\n" + "\n".join(arms), P_LOW, ty)
+
+    # -- statements -------------------------------------------------------------------------
+    def seq(self, stmts, i, tail, sc, deferred):
+        if i == len(stmts):
+            if tail is None:
+                return self.no_tail(sc)
+            return self.ex(tail, sc)
+        s = stmts[i]
+        k = s[0]
+
+        def rest(sc2):
+            return self.seq(stmts, i + 1, tail, sc2, deferred)
+        if k == "let":
+            if s[1][0] != "pid" or s[2] is None:
+                self.fail("`let` form (pattern / deferred initialisation)")
+            n = s[1][1]
+            mutable = len(s[1]) > 2
+            acc = self.accumulating_from_fn(s[2], sc)
+            if acc is not None:
+                clo_stripped, accname, d = acc
+                v = self.ex3(clo_stripped, sc)
+                sc2 = sc.bind(n, lname(n), v[2], mutable)
+                an = sc[accname][0]
+                y = "i" if n != "i" and accname != "i" else "j"
+                fold = ("(List.finRange %s).foldl (fun %s %s => %s + %s[%s]) %s" % (d, an, y, an, lname(n), y, an), P_APP)
+                sc3 = sc2.bind(accname, an, S, True)
+                return self.mklet(lname(n), v[:2], self.mklet(an, fold, rest(sc3)))
+            v = self.ex3(s[2], sc)
+            if v[2] == ("Opt", None):
+                self.fail("untyped `None`")
+            return self.mklet(lname(n), v[:2], rest(sc.bind(n, lname(n), v[2], mutable)))
+        if k == "assign" and s[2][0] == "path" and len(s[2][1]) == 1:
+            n = s[2][1][0]
+            if n not in sc or n not in sc.mut:
+                self.fail("assignment to `%s` (not a `mut` local)" % n)
+            text, ty = sc[n]
+            r = self.ex3(s[3], sc)
+            if s[1] == "=":
+                v = r[:2]
+            else:
+                if ty != S or r[2] != S:
+                    self.fail("compound assignment on non-scalars")
+                op = s[1][0]
+                p = P_ADD if op in "+-" else P_MUL
+                v = (text + " " + op + " " + paren(r[:2], p + 1), p)
+            return self.mklet(text, v, rest(sc.bind(n, text, ty, True)))
+        if k == "for":
+            return self.for_loop(s, rest, sc)
+        if k == "expr" and s[1][0] == "call" and s[1][1] == ("path", ["normalize_prob_dist"]) and len(s[1][2]) == 1:
+            a = s[1][2][0]
+            if a[0] == "un" and a[1] == "&" and a[2][0] == "path" and len(a[2][1]) == 1 and a[2][1][0] in sc.mut:
+                n = a[2][1][0]
+                text, ty = sc[n]
+                if ty[0] == "V" and ty[2] == S:
+                    # a `&mut` argument: the callee's final value of the parameter is the new value here
+                    return self.mklet(text, app(NS + "normalize_prob_dist", (text, P_ATOM)), rest(sc.bind(n, text, ty, True)))
+        if k == "ifs" and s[1][3] is None:
+            b = s[1][2]
+            if b[2] is None and len(b[1]) == 1 and b[1][0][0] == "expr" and b[1][0][1][0] == "return" \
+                    and b[1][0][1][1] is not None:
+                c = self.ex3(s[1][1], sc)
+                v = self.ex3(b[1][0][1][1], sc)
+                r = rest(sc)
+                return (self.mkif(c[:2], v[:2], r, r[0].startswith("if ")), P_LOW)
+        self.fail("statement form `%s`" % describe(s))
+
+    def no_tail(self, sc):
+        rv = self.spec.get("result_var")
+        if rv and rv in sc:
+            return (sc[rv][0], P_ATOM)
+        self.fail("block without a value")
+
+    def accumulating_from_fn(self, e, sc):
+        """`U::from_fn(|y| { let a = E; acc += a; a })` with `acc` an outer `mut` scalar: returns
+        (the from_fn call without the update, acc, dim).  from_fn calls the closure for the indexes in
+        order, so `acc` ends as the left fold of `+` over the produced entries."""
+        if not (e[0] == "call" and e[1][0] == "path" and len(e[1][1]) == 2 and e[1][1][1] == "from_fn"
+                and e[1][1][0] in self.dims and len(e[2]) == 1 and e[2][0][0] == "closure"):
+            return None
+        clo = e[2][0]
+        b = clo[2]
+        if b[0] != "block":
+            return None
+        ups = [st for st in b[1] if st[0] == "assign"]
+        if not ups:
+            return None
+        if len(ups) != 1 or ups[0][1] != "+=" or ups[0][2][0] != "path" or ups[0][2][1][0] not in sc.mut \
+                or ups[0][3] != b[2] or b[2] is None or b[2][0] != "path":
+            self.fail("closure with a side effect other than `acc += <the produced entry>`")
+        stripped = ("block", [st for st in b[1] if st[0] != "assign"], b[2])
+        return (("call", e[1], [("closure", clo[1], stripped)]), ups[0][2][1][0], self.dim(self.dims[e[1][1][0]]))
+
+    def for_loop(self, s, rest, sc):
+        pat, it, body = s[1], s[2], s[3]
+        itd = self.iterator(it, sc)
+        if itd is None or itd["kind"] != "idx" or itd["map"] or itd["filter"]:
+            self.fail("`for` over something else than `T::indexes()`")
+        d = itd["dim"]
+        var, rn = self.idx_binder(pat, d)
+        if body[2] is not None:
+            self.fail("`for` body with a value")
+        nassign = sum(1 for _ in walk_kind(body, "assign"))
+        top = [st for st in body[1] if st[0] == "assign"]
+        if nassign != len(top) or not top:
+            self.fail("`for` body: assignments must be top-level statements of the body")
+        sc_i = sc.bind(rn, var, ("I", d)) if rn else sc
+        # (B) element-wise update  `p[i] op= e`
+        if len(body[1]) == 1 and top[0][2][0] == "index":
+            lhs = top[0][2]
+            if lhs[1][0] == "path" and len(lhs[1][1]) == 1 and lhs[1][1][0] in sc.mut and lhs[2] == ("path", [rn]):
+                p = lhs[1][1][0]
+                text, ty = sc[p]
+                if ty[0] != "V" or ty[1] != d or ty[2] != S:
+                    self.fail("element-wise update of `%s`" % p)
+                if any(True for x in walk_kind(top[0][3], "path") if x[1] == [p]):
+                    self.fail("element-wise update whose right-hand side reads the updated table")
+                r = self.ex3(top[0][3], sc_i)
+                if top[0][1] == "=":
+                    v = r[0]
+                else:
+                    op = top[0][1][0]
+                    pr = P_ADD if op in "+-" else P_MUL
+                    v = "%s[%s] %s %s" % (text, var, op, paren(r[:2], pr + 1))
+                val = ("Vector.ofFn fun %s : Fin %s => %s" % (var, d, v), P_LOW)
+                return self.mklet(text, val, rest(sc.bind(p, text, ty, True)))
+        # (A) fold: every assignment targets the same scalar `mut` local
+        names = {st[2][1][0] if st[2][0] == "path" and len(st[2][1]) == 1 else None for st in top}
+        if len(names) != 1 or None in names:
+            self.fail("`for` body updating more than one variable")
+        v = names.pop()
+        if v not in sc.mut or sc[v][1] != S:
+            self.fail("`for` body updating `%s` (not a `mut` scalar local)" % v)
+        text = sc[v][0]
+        inner = self.seq(body[1], 0, ("path", [v]), sc_i.bind(v, text, S, True), set())
+        it_ = inner[0]
+        lamb = "fun %s %s =>" % (text, var)
+        lamb = lamb + " " + it_ if "\n" not in it_ else lamb + "\n" + ind("(" + it_ + ")")
+        val = ("(List.finRange %s).foldl (%s) %s" % (d, lamb, text), P_APP)
+        return self.mklet(text, val, rest(sc.bind(v, text, S, True)))
+
+    # -- definitions ------------------------------------------------------------------------
+    def define(self, lean_name):
+        sc = Scope()
+        binders = []
+        try:
+            self.selfkind = self.self_type()[0] if self.item.ctx else None
+        except Unsupported:
+            self.selfkind = None
+        for prm in self.item.params:
+            pat, ty = prm[0], prm[1]
+            if pat == "self":
+                t = self.self_type()
+                sc = sc.bind("self", "self", t)
+                binders.append(("self", t))
+                continue
+            if pat[0] != "pid":
+                self.fail("parameter pattern")
+            n = pat[1]
+            t = self.rust_type(ty)
+            sc = sc.bind(n, lname(n), t, len(pat) > 2 or re.match(r"&('\w+ )?mut", ty) is not None)
+            binders.append((lname(n), t))
+            for extra_after, btext, _ in self.spec.get("extra", ()):
+                if extra_after == n:
+                    binders.append((btext, None))
+        body = self.item.body
+        t = self.seq(body[1], 0, body[2], sc, set())
+        for _, t_ in binders:
+            for d in re.findall(r"\b[nm]\b", lean_type(t_)) if t_ else []:
+                self.used_dims.add(d)
+        for d in re.findall(r"\b[nm]\b", self.spec["rty"]):
+            self.used_dims.add(d)
+        dims = "".join(" {%s : Nat}" % d for d in ("n", "m") if d in self.used_dims)
+        bs = " ".join("(%s : %s)" % (n, lean_type(t_)) if t_ else n for n, t_ in binders)
+        return "def %s {α : Type} [Scalar α]%s %s: %s :=\n%s\n" % (lean_name, dims, bs + " " if bs else "", self.spec["rty"], ind(t[0]))
+
+
+def walk_kind(e, kind):
+    if isinstance(e, tuple):
+        if e and e[0] == kind:
+            yield e
+        for x in e:
+            yield from walk_kind(x, kind)
+    elif isinstance(e, list):
+        for x in e:
+            yield from walk_kind(x, kind)
+
+
+SX = r"^impl < T , V > Simplex < T , V >$"
+OPREF = r"^impl < T , V > OpinionRef < '_ , T , V >$"
+MUL_TARGETS = [
+    # (lean name, rust fn, regex on the enclosing impl header, spec)
+    ("Simplex_vacuous", "vacuous", SX, {"rty": "Simplex α n", "dims": {"T": "n"}}),
+    ("Simplex_is_vacuous", "is_vacuous", SX, {"rty": "Bool", "dims": {"T": "n"}}),
+    ("Simplex_is_dogmatic", "is_dogmatic", SX, {"rty": "Bool", "dims": {"T": "n"}}),
+    ("OpinionRef_is_vacuous", "is_vacuous", OPREF, {"rty": "Bool", "dims": {"T": "n"}}),
+    ("OpinionRef_is_dogmatic", "is_dogmatic", OPREF, {"rty": "Bool", "dims": {"T": "n"}}),
+    ("normalize_prob_dist", "normalize_prob_dist", r"^$", {"rty": "Tab α n", "result_var": "p"}),
+    ("Simplex_normalized", "normalized", SX, {"rty": "Simplex α n"}),
+    ("OpinionRef_projection", "projection", r"Projection < Idx , T > for OpinionRef", {"rty": "Tab α n"}),
+    ("Simplex_projection", "projection", SX, {"rty": "Tab α n"}),
+    ("max_uncertainty", "max_uncertainty", r"MaxUncertainty < Idx , V , T > for Simplex", {"rty": "α"}),
+    ("uncertainty_maximized", "uncertainty_maximized", r"MaxUncertainty < Idx , V , T > for Simplex",
+     {"rty": "Simplex α n"}),
+    ("Simplex_discount", "discount", r"Discount < T , V > for Simplex", {"rty": "Simplex α n", "dims": {"T": "n"}}),
+    ("compute_simlex", "compute_simlex", r"^$", {"rty": "Simplex α n"}),
+    ("compute_base_rate", "compute_base_rate", r"^$",
+     {"rty": "Tab α n", "dims": {"T": "n"}, "extra": [("op", "(same : Bool)", None)],
+      "ptr_eq": (["lhs.base_rate", "rhs.base_rate"], "same")}),
+    ("mbr", "mbr", r"^$", {"rty": "Option (Tab α m)", "cond": {"Cond": "m"}}),
+    ("projections", "projections", r"^$", {"rty": "Vector (Tab α m) n", "cond": {"Cond": "m"}, "dims": {"Cond": "n"}}),
+    ("deduce_of", "deduce_of", r"^$", {"rty": "Opinion α m", "cond": {"Cond": "m"}}),
+    ("inverse", "inverse", r"InverseCondition < X , Y , T , U , V > for Cond",
+     {"rty": "Vector (Simplex α n) m", "cond": {"Cond": "m"}}),
+]
+
+
+def gen_mul(src_dir):
+    fname = "mul.rs"
+    text = open(os.path.join(src_dir, fname)).read()
+    items = scan_items(text, fname)
+    defs, spans = [], []
+    for lean_name, rust, ctx, spec in MUL_TARGETS:
+        it = find(items, rust, ctx)
+        span = text[it.span[0]:it.span[1]]
+        spans.append(span)
+        d = MulEmit(it, spec).define(lean_name)
+        line = text.count("\n", 0, it.span[0]) + 1
+        defs.append("/-- `%s` (src/%s:%d), sha256 of the item text %s -/\n%s"
+                    % (rust, fname, line, sha(span)[:16], d))
+    head = ("/-\n  GENERATED by /verif/tools/rs2lean.py from src/%s -- do not edit, regenerated on every run.\n"
+            "  source-span sha256: %s\n"
+            "  Conventions: a container type T/U/Cond over index type Idx|X ↦ size n, over Y ↦ size m;\n"
+            "  T::from_fn(|i| e), T::map(|i| e) ↦ Vector.ofFn fun i : Fin n => e;  T::indexes().map(f).sum() ↦\n"
+            "  Tab.sumIter (Vector.ofFn f);  .reduce(<V>::min).unwrap() ↦ Tab.reduceMin (Vector.ofFn f);\n"
+            "  `for i in T::indexes() { acc = .. }` ↦ (List.finRange n).foldl;  `for i .. { p[i] /= s }` ↦\n"
+            "  Vector.ofFn fun i => p[i] / s;  a `&mut` parameter is returned;  `if c { return e; }` ↦ if c then e else ..;\n"
+            "  `match op { A | B if g => e, .. }` ↦ match op with | A | B => if g then e else ..\n"
+            "  Tie theorems: SLV/Gen/MulTie.lean.\n-/\n"
+            "import SLV.Model.Fuse\nimport SLV.Model.Cond\nnamespace SLV.Gen.Mul\nopen Scalar\n\n") % (fname, sha("\n".join(spans)))
+    return head + "\n".join(defs) + "\nend SLV.Gen.Mul\n"
 
 
 # ------------------------------------------------------------------------------------------------
